@@ -1,6 +1,7 @@
 import MontePyVerif.Lemmas.Queue
 import MontePyVerif.Lemmas.Paths
 import MontePyVerif.Lemmas.Flatten
+import MontePyVerif.Lemmas.Finite
 /-!
 # C20 — files pulled in by read cards are merged exactly once, in the right block
 
@@ -169,6 +170,59 @@ theorem proj_frontEvents (bytes : List Nat) : proj (frontEvents bytes) = [] := b
         · cases rest <;> rfl
     · rfl
 
+/-! ## termination on every finite file system -/
+
+open MontePyVerif.Finite in
+/-- **C20_term_always** (with fix 8561374): on a file system with finitely many files (`support` lists them) read
+    cards are never nested deeper than the number of files — a card naming a file that is being read is refused —,
+    so the queue always empties: from some fuel on the run is always the same and never ends for lack of fuel.
+    A cycle is a deliberate error (`MalformedInputError`), never a hang. -/
+theorem C20_term_always (ll : Nat) (fs : FS) (main : Str) (bytes : List Nat) (support : List Str)
+    (hsup : ∀ p, fs p ≠ none → p ∈ support) (hm : fs main = some bytes) :
+    Nesting ll fs main bytes support.length ∧
+    ∃ fuel0, ∀ extra, readAll ll (extra + fuel0) fs main = readAll ll fuel0 fs main ∧
+      Event.raise .outOfFuel ∉ readAll ll fuel0 fs main := by
+  have hd : Nesting ll fs main bytes support.length := by
+    unfold Nesting
+    apply diesOut_of_finite ll fs support hsup main support.length _ 1 (by omega)
+    intro e he
+    have hchain := MontePyVerif.Flatten.enq_goLines ⟨ll, .cell, main, [main]⟩ _ _ e he
+    have hchk := chk_goLines ⟨ll, .cell, main, [main]⟩ _ _ e he
+    simp only at hchain hchk
+    refine ⟨⟨?_, ?_, ?_, ?_⟩, ?_⟩
+    · rw [hchain]; rfl
+    · rw [hchain]; simp
+    · rw [hchain]; intro p hp; simp at hp; subst hp; exact hsup _ (by rw [hm]; simp)
+    · rw [hchain]
+      have htop : (⟨ll, .cell, main, [main]⟩ : Cfg).topDir = dirname main := rfl
+      rw [htop, List.contains_eq_mem, decide_eq_false_iff_not] at hchk
+      exact hchk
+    · rw [hchain]; simp
+  refine ⟨hd, enoughFuel ll fs main bytes support.length, fun extra => ⟨C20_term ll fs main bytes _ extra hm hd, ?_⟩⟩
+  have h0 := C20_queue ll fs main bytes support.length 0 hm hd
+  rw [Nat.zero_add] at h0
+  rw [h0]
+  intro hmem
+  rcases List.mem_cons.mp hmem with h | h
+  · simp at h
+  · rcases List.mem_append.mp h with h1 | h1
+    · -- front matter: only message / title events
+      have : ∀ ev ∈ frontEvents bytes, ev.isRaise = false := by
+        intro ev hev
+        have hp : hasRaise (frontEvents bytes) = false := by
+          have := MontePyVerif.Flatten.any_isErr_proj (frontEvents bytes)
+          rw [proj_frontEvents] at this
+          exact this.symm
+        unfold hasRaise at hp
+        rw [List.any_eq_false] at hp
+        simpa using hp ev hev
+      have := this _ h1
+      simp [Event.isRaise] at this
+    · have h2 := mem_cut _ _ h1
+      rcases List.mem_append.mp h2 with h3 | h3
+      · exact nf_goLines _ _ _ h3
+      · exact nf_serveAll _ _ _ _ h3
+
 open MontePyVerif.Refine MontePyVerif.Flatten in
 /-- **C20_flatten**: for every file system, top-level file and nesting depth — provided the top-level file's body and
     every file that gets served consist of lines on which the code's rules and MCNP's coincide (`FileOK`, `EntryOK`:
@@ -267,6 +321,21 @@ example : (readAll 128 2 exFs ['d', '/', 'm']).filterMap (fun | .input bt ls => 
 example : opened (readAll 128 2 exFs ['d', '/', 'm']) = [['d', '/', 'm'], ['d', '/', 'a'], ['d', '/', 'b']] := by decide
 example : Nesting 128 exFsMissing ['d', '/', 'm'] exMain 3 := by unfold Nesting; decide
 example : firstRaise (readAll 128 2 exFsMissing ['d', '/', 'm']) = some .fileNotFound := by decide
+/-- `exFs` has three files; a tree in which `d/a` reads the top-level file back ends in the deliberate error -/
+example : ∀ p, exFs p ≠ none → p ∈ [['d', '/', 'm'], ['d', '/', 'a'], ['d', '/', 'b']] := by
+  intro p h
+  unfold exFs at h
+  by_cases h1 : p = ['d', '/', 'm']
+  · simp [h1]
+  · by_cases h2 : p = ['d', '/', 'a']
+    · simp [h2]
+    · by_cases h3 : p = ['d', '/', 'b']
+      · simp [h3]
+      · simp [h1, h2, h3] at h
+/-- `"1 0\nread file=m\n"`: `d/a` names the top-level file -/
+def exACycle : List Nat := [49, 32, 48, 10, 114, 101, 97, 100, 32, 102, 105, 108, 101, 61, 109, 10]
+def exFsCycle : FS := fun p => if p = ['d', '/', 'a'] then some exACycle else exFs p
+example : firstRaise (readAll 128 5 exFsCycle ['d', '/', 'm']) = some .malformed := by decide
 /-- too little fuel is visible as such (and `C20_term` says when it cannot happen) -/
 example : firstRaise (readAll 128 1 exFs ['d', '/', 'm']) = some .outOfFuel := by decide
 
